@@ -101,12 +101,15 @@ func (a *analysis) oracleC10() verdict {
 			for j := i + 1; j < len(ops); j++ {
 				if ops[i].ClientId != ops[j].ClientId && ops[i].Call < ops[j].Return && ops[j].Call < ops[i].Return {
 					overlap = true
+					a.ob("overlapping_operation_pairs", 1)
 				}
 			}
 		}
 		if len(ops) == 0 {
 			continue
 		}
+		a.ob("porcupine_partitions_checked", 1)
+		a.ob("porcupine_operations", len(ops))
 		res, _ := porcupine.CheckOperationsVerbose(c10Model(spec.Total), ops, 60*time.Second)
 		switch res {
 		case porcupine.Illegal:
